@@ -3,16 +3,16 @@ CONSTANTS
   UseStaticCfg = TRUE
   StaticCfg <- DefaultCfg
   Dev = {"RefundTruncatedDust"}
-  Family = "attest"
-  MaxLen = 9
-  Amts = {10, 101}
-  Fees = {0, 3}
+  Family = "valset"
+  MaxLen = 5
+  Amts = {10}
+  Fees = {0}
   Users = {"a1"}
   SendChains = {"ethereum"}
-  Denoms = {"usd"}
+  Denoms = {"hub"}
   DepChains = {"minter"}
-  DepDests = {"hub", "ethereum"}
-  MaxSends = 2
+  DepDests = {"hub"}
+  MaxSends = 1
   MaxDeposits = 1
   MaxBlocks = 3
   Orchs = {"o1", "o2"}
